@@ -8,14 +8,28 @@ use super::spec;
 /// Never uses the crate's encoder.
 pub fn put_ref_varint<const N: usize>(buf: &mut [u8; N], off: usize, v: u64) -> usize {
     let n = spec::varint_len(v);
-    let mut i = 0;
-    while i < n {
-        if off + i < N {
-            buf[off + i] = spec::varint_byte(v, i);
-        }
-        i += 1;
+    // loop-free (n is 1, 2, 4 or 8) so that harnesses can use small unwinding bounds
+    put1(buf, off, spec::varint_byte(v, 0));
+    if n >= 2 {
+        put1(buf, off + 1, spec::varint_byte(v, 1));
+    }
+    if n >= 4 {
+        put1(buf, off + 2, spec::varint_byte(v, 2));
+        put1(buf, off + 3, spec::varint_byte(v, 3));
+    }
+    if n == 8 {
+        put1(buf, off + 4, spec::varint_byte(v, 4));
+        put1(buf, off + 5, spec::varint_byte(v, 5));
+        put1(buf, off + 6, spec::varint_byte(v, 6));
+        put1(buf, off + 7, spec::varint_byte(v, 7));
     }
     off + n
+}
+
+fn put1<const N: usize>(buf: &mut [u8; N], i: usize, b: u8) {
+    if i < N {
+        buf[i] = b;
+    }
 }
 
 /// Symbolic byte array.
